@@ -938,3 +938,8 @@ class C15(Check):
 # correspondence stream and oracle shared with the other two checks that serve `cache_unobservable`
 from harness import envcachelib as _envcache  # noqa: E402
 _envcache.install(C15)
+
+# the request helper classes (WSGIHeaderDict, CookieDict) and the small accessors of props_mixin (auth, remote_route,
+# is_xhr): an extra correspondence stream and oracle
+from harness import helperslib as _helpers  # noqa: E402
+_helpers.install(C15)
